@@ -21,6 +21,88 @@ mon = sys.monitoring
 
 _real_allocate_lock = _thread.allocate_lock
 
+import time as _time_mod
+_real_time = {n: getattr(_time_mod, n) for n in ('time', 'monotonic', 'perf_counter', 'process_time', 'time_ns',
+                                                  'monotonic_ns', 'perf_counter_ns', 'sleep')}
+
+
+class SimClock:
+    """The only clock simulated code can read.  Starts at the same instant in every node and oracle,
+    advances 1 microsecond per a5 step, and jumps when the simulator says so (fault: clock skew / jump)."""
+    EPOCH = 1_800_000_000.0
+
+    def __init__(self):
+        self.active = False
+        self.reset()
+
+    def reset(self):
+        self.steps = 0
+        self.wall_jump = 0.0
+        self.mono_jump = 0.0
+        self.reads = 0
+        self.jumps = 0
+
+    def jump(self, dt):
+        self.jumps += 1
+        self.wall_jump += dt                 # wall time may go backwards
+        if dt > 0:
+            self.mono_jump += dt             # monotonic clocks never do
+
+    def wall(self):
+        self.reads += 1
+        return self.EPOCH + self.steps * 1e-6 + self.wall_jump
+
+    def mono(self):
+        self.reads += 1
+        return 1000.0 + self.steps * 1e-6 + self.mono_jump
+
+
+clock = SimClock()
+
+
+def _mk_time(name, simfn):
+    real = _real_time[name]
+
+    def f(*a):
+        if clock.active:
+            return simfn(*a)
+        return real(*a)
+    f.__name__ = name
+    return f
+
+
+def _sim_sleep(secs=0):
+    clock.reads += 1
+    if secs and secs > 0:
+        clock.jump(float(secs))             # sleeping costs simulated time only
+    s = _in_sim()
+    if s is not None:
+        s.yield_now()
+
+
+_SIM_TIME = {
+    'time': _mk_time('time', lambda: clock.wall()),
+    'monotonic': _mk_time('monotonic', lambda: clock.mono()),
+    'perf_counter': _mk_time('perf_counter', lambda: clock.mono()),
+    'process_time': _mk_time('process_time', lambda: clock.steps * 1e-6),
+    'time_ns': _mk_time('time_ns', lambda: int(clock.wall() * 1e9)),
+    'monotonic_ns': _mk_time('monotonic_ns', lambda: int(clock.mono() * 1e9)),
+    'perf_counter_ns': _mk_time('perf_counter_ns', lambda: int(clock.mono() * 1e9)),
+    'sleep': _mk_time('sleep', _sim_sleep),
+}
+
+
+def patch_time():
+    """Clock seam: while a5 is imported and inside node/oracle children, the time module's clock functions are
+    wrappers that answer from the simulated clock while a simulation is active and from the real one otherwise."""
+    for n, f in _SIM_TIME.items():
+        setattr(_time_mod, n, f)
+
+
+def unpatch_time():
+    for n, f in _real_time.items():
+        setattr(_time_mod, n, f)
+
 
 # --------------------------------------------------------------------------
 # the seam
@@ -159,16 +241,20 @@ def solo_call(a5mod, seam, call, want_trace=False, cap=3_000_000):
     if want_trace:
         def h(code, pos):
             counter[0] += 1
+            clock.steps += 1
             if counter[0] > cap:
                 raise SimAbort()
             trace.append(seam.loc(code, pos))
     else:
         def h(code, pos):
             counter[0] += 1
+            clock.steps += 1
             if counter[0] > cap:
                 raise SimAbort()
     global _history_mode
     _history_mode = True                 # one thread only: a blocking wait can never be satisfied
+    clock.reset()
+    clock.active = True
     itrace = []
 
     def ih(code, off):
@@ -227,6 +313,8 @@ def run_seq_node(a5mod, seam, spec):
     """Single-threaded execution of the run's calls in a given merged order
     (used to ask whether an observation is sequentially explainable).  An
     injected 'kill' fault is applied at the same per-thread step."""
+    clock.reset()
+    clock.active = True
     for call in spec.get('warm', []):
         apply_call(a5mod, call['f'], [canon.dec(a) for a in call['a']])
     res = [[None] * len(tc) for tc in spec['threads']]
@@ -846,12 +934,14 @@ def patch_threading():
     threading.BoundedSemaphore = CoopBoundedSemaphore
     threading.Event = CoopEvent
     threading._allocate_lock = CoopLock          # (threading internals created from now on)
+    patch_time()
 
 
 def unpatch_threading():
     for k, v in _orig.items():
         setattr(threading, k, v)
     threading._allocate_lock = _real_allocate_lock
+    unpatch_time()
 
 
 # --------------------------------------------------------------------------
@@ -868,6 +958,7 @@ class Sched:
         self._pos = None
         self.tipoints = [0] * len(thread_calls)
         self.timed = [False] * len(thread_calls)
+        self.clock_jumps = []
         self.woke_by_timeout = [False] * len(thread_calls)
         self.timeouts_fired = 0
         self.seen_lines = set() if plan.wants_novel else None
@@ -966,6 +1057,10 @@ class Sched:
         self.tsteps[t] += 1
         self.steps += 1
         self.seg_n += 1
+        clock.steps += 1
+        cj = self.clock_jumps
+        if cj and self.steps >= cj[0][0]:
+            clock.jump(cj.pop(0)[1])
 
     def on_ipoint(self, code, off):
         """An interrupt point of the baton holder (function entry, return from a C
@@ -981,6 +1076,15 @@ class Sched:
             self.kill = None
             self.killed = [t, len(self.results[t]), self.seam.iloc(code, off)]
             raise _EXC[k['exc']]('injected by simulator')
+
+    def yield_now(self):
+        """time.sleep() inside simulated code: let another runnable thread go first."""
+        t = self.cur
+        r = [x for x in self.runnable() if x != t]
+        if r:
+            target = self.plan.handoff(r)
+            self._transfer(t, target, 'sleep')
+            self.locks[t].acquire()
 
     # -- cooperative lock support ------------------------------------------
     def _fire_timeout(self):
@@ -1071,9 +1175,8 @@ class Sched:
             self.done_locks[i].acquire()
             _thread.start_new_thread(self._thread_main, (i,))
         # wait until every thread has registered its ident (they then park)
-        import time
         while any(x is None for x in self.idents):
-            time.sleep(0)
+            _real_time['sleep'](0)
         first = self.plan.start(self.runnable())
         self.cur = first
         self.active = True
@@ -1100,6 +1203,8 @@ def run_threads_node(a5mod, seam, spec, hot=None):
     """Body of a C16 node.  spec: threads (list of call lists), warm (list of
     calls run sequentially first), plan (dict), seed, budget, est_len."""
     rng = random.Random(spec['seed'])
+    clock.reset()
+    clock.active = True
     warm_out = []
     for call in spec.get('warm', []):
         args = [canon.dec(a) for a in call['a']]
@@ -1108,7 +1213,9 @@ def run_threads_node(a5mod, seam, spec, hot=None):
     plan = make_plan(spec['plan'], rng, len(spec['threads']), spec.get('est_len', 1000))
     s = Sched(seam, a5mod, spec['threads'], plan, spec['budget'], hot=hot, log_limit=spec.get('log_limit', 4000))
     s.kill = spec.get('kill')
+    s.clock_jumps = sorted([list(x) for x in spec.get('clock_jumps', [])])
     s.run()
+    clock_reads = clock.reads
     post = post_seq = None
     if s.aborted is None and spec.get('post', True):
         post, post_seq = post_quiescence(a5mod, spec['threads'])
@@ -1117,6 +1224,9 @@ def run_threads_node(a5mod, seam, spec, hot=None):
         'post': post,
         'post_seq': post_seq,
         'killed': s.killed,
+        'clock_reads': clock_reads,
+        'clock_jumps': clock.jumps,
+        'timeouts_fired': s.timeouts_fired,
         'warm': warm_out,
         'aborted': s.aborted,
         'segments': s.segments,
@@ -1238,6 +1348,8 @@ def run_history_node(a5mod, seam, spec):
     post-call canonical args, steps, whether a fault landed."""
     global _history_mode
     _history_mode = True
+    clock.reset()
+    clock.active = True
     recs = []
     owned = {}          # op index -> (args objects, result object)
     h = hashlib.blake2b(digest_size=16)
@@ -1252,6 +1364,7 @@ def run_history_node(a5mod, seam, spec):
 
     def handler(code, pos):
         counter[0] += 1
+        clock.steps += 1
         if counter[0] > cap:
             raise SimAbort()
 
@@ -1342,6 +1455,9 @@ def run_history_node(a5mod, seam, spec):
             if outcome[0] == 'abort':
                 recs.append(rec)
                 break
+        elif kind == 'clock_jump':
+            clock.jump(op['dt'])
+            rec.update({'dt': op['dt']})
         elif kind == 'mutate_result':
             ref = op['ref']
             applied = None
@@ -1362,7 +1478,7 @@ def run_history_node(a5mod, seam, spec):
         h.update(canon.key([rec.get('f'), rec.get('pre'), rec.get('outcome'), rec.get('post'),
                             rec.get('steps'), rec.get('landed'), rec.get('applied')]).encode())
         recs.append(rec)
-    out = {'recs': recs, 'digest': h.hexdigest(), 'foreign': seam.foreign}
+    out = {'recs': recs, 'digest': h.hexdigest(), 'foreign': seam.foreign, 'clock_reads': clock.reads, 'clock_jumps': clock.jumps}
     if spec.get('fingerprint'):
         out['state'] = state_fingerprint()
     return out
